@@ -192,6 +192,20 @@ def _child_run(case_dir: str, db_dir: str, history: list[str], mode: str, kill_a
             return
         if ph == "before":
             calls["n"] += 1
+            if phase is not None and phase.startswith("during:") and calls["n"] == kill_at:
+                # a kill that does not wait for the engine call to return: a timer thread delivers it after a short delay,
+                # while the call (or whatever fakesnow does right after it) is in flight
+                delay = float(phase.split(":")[1])
+
+                def _later() -> None:
+                    if delay:
+                        time.sleep(delay)
+                    os.kill(os.getpid(), signal.SIGKILL)
+
+                import threading
+
+                threading.Thread(target=_later, daemon=True).start()
+                return
         if kill_at is not None and calls["n"] == kill_at and (ph == phase or (phase == "after" and ph == "error")):
             _journal(jpath, f"killing {ph} call {calls['n']}")
             os.kill(os.getpid(), signal.SIGKILL)
@@ -256,6 +270,8 @@ def _child_run(case_dir: str, db_dir: str, history: list[str], mode: str, kill_a
         if dry:
             with open(os.path.join(case_dir, "dry.json"), "w") as f:
                 json.dump({"states": states, "percall": percall, "total_calls": calls["n"]}, f)
+        if phase is not None and phase.startswith("during:"):
+            time.sleep(10)  # the timer's kill is on its way
         if mode == "body_exc":
             raise RuntimeError("exception in the body")
         if mode == "sys_exit":
@@ -339,6 +355,24 @@ def _fork(fn: Any, *args: Any, timeout: float = 60.0) -> tuple[str, int]:
         time.sleep(0.002)
 
 
+def _spawn_run(case_dir: str, db_dir: str, history: list[str], mode: str, with_conn: bool) -> int | None:
+    """_child_run in a fresh interpreter that ends the way an application's interpreter ends.  Returns its exit status."""
+    import subprocess
+
+    here = os.path.dirname(os.path.dirname(os.path.dirname(os.path.abspath(__file__))))
+    code = ("import sys, json\nfrom fsverif.props import c18\n"
+            "a = json.loads(sys.argv[1])\nc18._child_run(a[0], a[1], a[2], a[3], None, None, False, a[4])\n")
+    try:
+        pr = subprocess.run([sys.executable, "-B", "-c", code, json.dumps([case_dir, db_dir, history, mode, with_conn])],
+                            capture_output=True, text=True, timeout=180, cwd=case_dir,
+                            env={**os.environ, "PYTHONPATH": here, "PYTHONHASHSEED": "0"})
+    except subprocess.TimeoutExpired:
+        raise core.Inconclusive("fresh-interpreter watchdog") from None
+    with open(os.path.join(case_dir, "stderr.txt"), "w") as f:
+        f.write(pr.stderr[-2000:])
+    return pr.returncode
+
+
 # ---------------------------------------------------------------------------
 # parent side
 # ---------------------------------------------------------------------------
@@ -414,6 +448,15 @@ def run_case(case: dict, env: core.Env) -> None:
                 return
             rec = json.load(open(os.path.join(case_dir, "recovered.json")))
             if rec["errors"]:
+                if tag == "sigkill-during-engine-call":
+                    # keyed by the statement that was in flight and by the kind of error, so that a listed finding stays narrow
+                    nx = history[acked + 1] if acked + 1 < len(history) else "<end>"
+                    w = nx.split()
+                    nk = w[0] + ("-" + w[1] if len(w) > 1 and w[0] in ("CREATE", "COMMENT", "ALTER") else "")
+                    e0 = rec["errors"][0]
+                    ek = e0.split(":")[1].strip() + (":file-is-not-a-valid-database" if "not a valid DuckDB database file" in e0 else "")
+                    env.witness(f"C18/reopen-errors/{tag}/in-flight:{nk}/{ek}", f"{fault}: {rec['errors']}")
+                    return
                 env.witness(f"C18/reopen-errors/{tag}", f"{fault}: {rec['errors']}")
                 return
             env.count("cmp_recovered_state")
@@ -473,10 +516,31 @@ def run_case(case: dict, env: core.Env) -> None:
             env.nontrivial((history, mode))
             shutil.rmtree(cd, ignore_errors=True)
 
-        # ---- SIGKILL before / after engine call j
+        # ---- the same exit modes in a real interpreter (no fork, no os._exit at the end): module teardown, atexit handlers and the
+        # garbage collection of whatever is still referenced run as they do for an application
+        for mode in ("clean", "body_exc", "sys_exit"):
+            cd = os.path.join(base, "interp-" + mode)
+            os.makedirs(os.path.join(cd, "db"))
+            rc = _spawn_run(cd, os.path.join(cd, "db"), history, mode, case.get("with_conn", False))
+            env.count("exit_modes_run_in_a_fresh_interpreter")
+            env.count("fault_runs")
+            want_rc = {"clean": 0, "body_exc": 1, "sys_exit": 3}[mode]
+            if rc != want_rc or _acked(cd) != len(history) - 1:
+                err = ""
+                try:
+                    err = open(os.path.join(cd, "stderr.txt")).read()[-500:]
+                except OSError:
+                    pass
+                env.witness(f"C18/fresh-interpreter/child-ended-unexpectedly/{mode}", f"rc={rc} expected {want_rc}; acked={_acked(cd)} of {len(history)}: {err}")
+            else:
+                check(f"exit-mode:{mode}", f"{mode} in a fresh interpreter -> rc {rc}", cd, must_be=len(history))
+                env.nontrivial((history, "interp", mode))
+            shutil.rmtree(cd, ignore_errors=True)
+
+        # ---- SIGKILL before / after engine call j, and from a timer while call j is in flight
         js = [j for j in range(1, total + 1) if (j % case["stride"]) == case["offset"] % case["stride"]]
         for j in js:
-            for phase in ("before", "after"):
+            for phase in ("before", "after", "during:" + ("0", "0.0003", "0.002")[j % 3]):
                 cd = os.path.join(base, f"k{j}{phase}")
                 os.makedirs(os.path.join(cd, "db"))
                 how, code = _fork(_child_run, cd, os.path.join(cd, "db"), history, "kill", j, phase, False, case.get("with_conn", False))
@@ -489,7 +553,8 @@ def run_case(case: dict, env: core.Env) -> None:
                     si = next((i for i, (a, b) in enumerate(percall) if a < j <= b), None)
                     stmt_kind = "?" if si is None else history[si].split()[0]
                     env.cover("kill_in_statement", stmt_kind)
-                    check(f"sigkill-{phase}-engine-call", f"SIGKILL {phase} engine call {j}/{total} (statement {si}: {history[si] if si is not None else '?'})", cd)
+                    env.cover("kill_phase", phase.split(":")[0])
+                    check(f"sigkill-{phase.split(':')[0]}-engine-call", f"SIGKILL {phase} engine call {j}/{total} (statement {si}: {history[si] if si is not None else '?'})", cd)
                     env.nontrivial((history, j, phase))
                 else:
                     env.witness("C18/kill-not-delivered", f"child ended {how} {code} for kill {phase} call {j}")
